@@ -1046,23 +1046,30 @@ def run_witness(binpath, w):
             cmd = [binpath, "test"] + [os.path.join(tmpdir, a) if a in w["files"] else a for a in w["args"]]
             stdin = None
         elif kind == "lsp":
-            # a list of LSP messages replayed through `garden reftest-lsp`
+            # a list of LSP messages replayed through `garden reftest-lsp`; `{tmpdir}` in a message stands for the
+            # directory the files of w["extra_files"] are written to (documents that import files on disk)
+            for name_, text_ in (w.get("extra_files") or {}).items():
+                with open(os.path.join(tmpdir, name_), "w", encoding="utf-8") as fh:
+                    fh.write(text_)
             f = os.path.join(tmpdir, "s.jsonl")
             with open(f, "w", encoding="utf-8") as fh:
                 for req in w["input"]:
-                    fh.write(json.dumps(req) + "\n")
+                    fh.write(json.dumps(req).replace("{tmpdir}", tmpdir) + "\n")
             cmd = [binpath, "reftest-lsp", f]
             stdin = None
         elif kind == "lsp-stdio":
             # the real server loop: `garden lsp` fed Content-Length framed messages on stdin; an input item is a JSON
             # message, or {"raw": text} for a body sent as it is, or {"frame": text} for bytes sent without a header.
             # The framed answers are re-printed one JSON value per line, so the usual oracles apply.
+            for name_, text_ in (w.get("extra_files") or {}).items():
+                with open(os.path.join(tmpdir, name_), "w", encoding="utf-8") as fh:
+                    fh.write(text_)
             data = b""
             for it in w["input"]:
                 if isinstance(it, dict) and set(it) == {"frame"}:
                     data += it["frame"].encode("utf-8")
                     continue
-                body = (it["raw"] if isinstance(it, dict) and set(it) == {"raw"} else json.dumps(it)).encode("utf-8")
+                body = (it["raw"] if isinstance(it, dict) and set(it) == {"raw"} else json.dumps(it).replace("{tmpdir}", tmpdir)).encode("utf-8")
                 data += b"Content-Length: %d\r\n\r\n" % len(body) + body
             try:
                 p = subprocess.run([binpath, "lsp"], input=data, capture_output=True, timeout=w.get("timeout", 60), cwd=tmpdir)
